@@ -43,6 +43,11 @@ def endings():
         for k in KINDS_SH + (('FAIL',) if ph == 'assert' else ()):
             out.append((ph, 'main', k))
     out.append(('act', 'nostart', 'OSERR'))
+    # double endings: a forward failure followed by a failing [cleanup] instruction
+    for base in [('pass',), ('assert-fail',), ('act', 'nostart', 'OSERR')] + [(ph, 'main', k) for ph in ('setup', 'before-assert', 'assert') for k in ('HEr', 'EXC')] + \
+            [('setup', 'post', 'VE'), ('assert', 'post', 'HEr'), ('assert', 'main', 'FAIL')]:
+        for ck in ('HEr', 'HEx', 'EXC'):
+            out.append(base + ('+cleanup', ck))
     return out
 
 
@@ -65,7 +70,15 @@ def cases(tier):
                     yield (e, keep, b, o)
 
 
+def split_ending(ending):
+    if '+cleanup' in ending:
+        i = ending.index('+cleanup')
+        return tuple(ending[:i]), ending[i + 1]
+    return tuple(ending), None
+
+
 def build(ending, behaviour):
+    ending, cleanup_kind = split_ending(ending)
     ph = {p: [] for p in ('conf', 'setup', 'before-assert', 'assert', 'cleanup')}
     act = ['% atc']
     ph['setup'].append('run % obs setup-first')
@@ -97,6 +110,8 @@ def build(ending, behaviour):
         act = ['% nonexisting']
     elif ending[0] != 'pass':
         ph[ending[0]].append('stub %s %s end' % (ending[1], ending[2]))
+    if cleanup_kind:
+        ph['cleanup'].append('stub main %s cleanup-end' % cleanup_kind)
     lines = []
     for p in ('conf', 'setup'):
         lines.append('[%s]' % p)
@@ -110,7 +125,16 @@ def build(ending, behaviour):
 
 
 def expected(ending):
-    """-> (identifier, sandbox created?, lifecycle phases entered)"""
+    """-> (acceptable identifiers, sandbox created?)"""
+    base, ck = split_ending(ending)
+    ident, created = expected1(base)
+    ids = {ident}
+    if ck and created:
+        ids = {ident, {'HEr': 'HARD_ERROR', 'HEx': 'HARD_ERROR', 'EXC': 'INTERNAL_ERROR'}[ck]} - ({'PASS'} if True else set())
+    return ids, created
+
+
+def expected1(ending):
     if ending[0] == 'pass':
         return 'PASS', True
     if ending[0] == 'assert-fail':
@@ -137,6 +161,7 @@ def _ls(p):
 def run(case) -> Result:
     ending, mode, behaviour, output = case
     ending = tuple(ending)
+    base_ending, cleanup_kind = split_ending(ending)
     keep = mode is True
     act_mode = mode == 'act'
     res = Result()
@@ -203,8 +228,8 @@ def run(case) -> Result:
     ident = (o.err.split('\n')[0] if keep else o.out.strip())
     if act_mode:
         ident = 'act-mode'  # outcome reporting of --act is C02's business; here: the lifecycle
-    elif ident != ident_exp:
-        errs.append('outcome %r, expected %s' % (ident, ident_exp))
+    elif ident not in ident_exp:
+        errs.append('outcome %r, expected one of %s' % (ident, sorted(ident_exp)))
 
     # ---- observations during the run ------------------------------------------------
     first = [x for x in obs if x.get('where') == 'setup-first']
@@ -251,7 +276,7 @@ def run(case) -> Result:
                             errs.append('result/stderr differs from the action\'s output')
                         if x['result/exit-code'].strip() != '3':
                             errs.append('result/exit-code is %r, expected 3' % x['result/exit-code'])
-                elif ending[0] == 'act':
+                elif base_ending[0] == 'act':
                     # the action could not be started: the phase was attempted; the statement says nothing about result/ then
                     if not set(x['result']) <= {'exit-code', 'stderr', 'stdout'}:
                         errs.append('result/ holds unexpected files %s' % x['result'])
